@@ -539,7 +539,7 @@ theorem rt_fields (cfg : DecCfg) : ∀ (fs : Fields) (vs : List GoVal), okFields
           simp [hom] at this
           cases v <;> simp_all
         have hz : zeroVal t = .nil := by
-          have h1 := hok.1.1
+          have h1 := hok.1.1.1
           simp only [Bool.and_eq_true] at hom
           simp [hom.1] at h1
           cases t <;> simp_all [nilZero, zeroVal]
@@ -929,6 +929,314 @@ theorem txhash_agrees (cfg : DecCfg) (bs : Bytes) (i : Nat) (tv : GoVal)
     | text b => simp [tTransaction, decodeVal] at h
     | array xs => simp [tTransaction, decodeVal] at h
     | map kvs => simp [tTransaction, decodeVal] at h
+
+
+
+
+theorem wfPairs_insertEntry (e : Cbor × Cbor) : ∀ (es : List (Cbor × Cbor)), e.1.wf = true → e.2.wf = true →
+    wfPairs es = true → wfPairs (insertEntry e es) = true ∧ (insertEntry e es).length = es.length + 1
+  | [], h1, h2, _ => by obtain ⟨k, v⟩ := e; simp_all [insertEntry, wfPairs]
+  | x :: xs, h1, h2, h => by
+    obtain ⟨k, v⟩ := e
+    obtain ⟨k', v'⟩ := x
+    simp only [wfPairs, Bool.and_eq_true] at h
+    simp only [insertEntry]
+    split
+    · simp_all [wfPairs]
+    · have ih := wfPairs_insertEntry (k, v) xs h1 h2 h.2.2
+      simp_all [wfPairs]
+
+theorem wfPairs_sortEntries : ∀ (es : List (Cbor × Cbor)), wfPairs es = true →
+    wfPairs (sortEntries es) = true ∧ (sortEntries es).length = es.length
+  | [], _ => by simp [sortEntries, wfPairs]
+  | (k, v) :: es, h => by
+    simp only [wfPairs, Bool.and_eq_true] at h
+    have ih := wfPairs_sortEntries es h.2.2
+    have := wfPairs_insertEntry (k, v) (sortEntries es) h.1 h.2.1 ih.1
+    simp only [sortEntries]
+    exact ⟨this.1, by rw [this.2, ih.2]; rfl⟩
+
+theorem mapOpt_wf (f : GoVal → Option Cbor) : ∀ (xs : List GoVal) (cs : List Cbor),
+    (∀ x ∈ xs, fitsVal x = true → ∀ c, f x = some c → c.wf = true) → fitsVals xs = true →
+    mapOpt f xs = some cs → wfList cs = true ∧ cs.length = xs.length
+  | [], cs, _, _, h => by simp [mapOpt] at h; subst h; simp [wfList]
+  | x :: xs, cs, hall, hf, h => by
+    simp only [fitsVals, Bool.and_eq_true] at hf
+    simp only [mapOpt] at h
+    cases h1 : f x with
+    | none => simp [h1] at h
+    | some c =>
+      cases h2 : mapOpt f xs with
+      | none => simp [h1, h2] at h
+      | some cs' =>
+        simp [h1, h2] at h
+        subst h
+        have ih := mapOpt_wf f xs cs' (fun y hy => hall y (List.mem_cons_of_mem _ hy)) hf.2 h2
+        have := hall x (List.mem_cons_self ..) hf.1 c h1
+        simp [wfList, this, ih.1, ih.2]
+
+theorem mapOpt2_wf (f g : GoVal → Option Cbor) : ∀ (xs : List (GoVal × GoVal)) (cs : List (Cbor × Cbor)),
+    (∀ x ∈ xs, (fitsVal x.1 = true → ∀ c, f x.1 = some c → c.wf = true) ∧
+               (fitsVal x.2 = true → ∀ c, g x.2 = some c → c.wf = true)) →
+    fitsPairs xs = true → mapOpt2 f g xs = some cs → wfPairs cs = true ∧ cs.length = xs.length
+  | [], cs, _, _, h => by simp [mapOpt2] at h; subst h; simp [wfPairs]
+  | (a, b) :: xs, cs, hall, hf, h => by
+    simp only [fitsPairs, Bool.and_eq_true] at hf
+    simp only [mapOpt2] at h
+    cases h1 : f a with
+    | none => simp [h1] at h
+    | some c =>
+      cases h2 : g b with
+      | none => simp [h1, h2] at h
+      | some d =>
+        cases h3 : mapOpt2 f g xs with
+        | none => simp [h1, h2, h3] at h
+        | some cs' =>
+          simp [h1, h2, h3] at h
+          subst h
+          have ih := mapOpt2_wf f g xs cs' (fun y hy => hall y (List.mem_cons_of_mem _ hy)) hf.2.2 h3
+          have hx := hall (a, b) (List.mem_cons_self ..)
+          simp [wfPairs, hx.1 hf.1 c h1, hx.2 hf.2.1 d h2, ih.1, ih.2]
+
+mutual
+/-- The encoding of a value whose sizes fit 64 bits is a well-formed data item. -/
+theorem enc_wf : ∀ (t : GoType) (v : GoVal) (c : Cbor), okType t = true → fitsVal v = true →
+    encodeVal t v = some c → c.wf = true
+  | .uint bits, v, c, _, hf, h => by
+    cases v <;> simp [encodeVal] at h
+    obtain ⟨_, rfl⟩ := h
+    simpa [Cbor.wf, fitsVal] using hf
+  | .bool, v, c, _, _, h => by
+    cases v <;> simp [encodeVal] at h
+    subst h; simp only [Cbor.bool, Cbor.wf]; split <;> decide
+  | .str, v, c, _, hf, h => by
+    cases v <;> simp [encodeVal] at h
+    subst h; simpa [Cbor.wf, fitsVal] using hf
+  | .bytes, v, c, _, hf, h => by
+    cases v <;> simp [encodeVal] at h
+    · subst h; simp [Cbor.null, Cbor.wf]
+    · subst h; simpa [Cbor.wf, fitsVal] using hf
+  | .felt, v, c, _, _, h => by
+    cases v <;> simp [encodeVal] at h
+    obtain ⟨hb, rfl⟩ := h
+    simp [Cbor.wf, wfList, u64] at hb ⊢
+    omega
+  | .raw, v, c, _, hf, h => by
+    cases v <;> simp [encodeVal] at h
+    subst h; simpa [fitsVal] using hf
+  | .discard, v, c, hok, _, _ => by simp [okType] at hok
+  | .ptr t, v, c, hok, hf, h => by
+    simp only [okType, Bool.and_eq_true] at hok
+    by_cases hv : v = .nil
+    · subst hv; simp [encodeVal] at h; subst h; simp [Cbor.null, Cbor.wf]
+    · rw [encodeVal_ptr_nonNil t v hv] at h
+      exact enc_wf t v c hok.2 hf h
+  | .slice t, v, c, hok, hf, h => by
+    simp only [okType] at hok
+    cases v <;> simp [encodeVal] at h
+    · subst h; simp [Cbor.null, Cbor.wf]
+    · rename_i xs
+      obtain ⟨cs, h1, rfl⟩ := h
+      simp only [fitsVal, Bool.and_eq_true, decide_eq_true_eq] at hf
+      have := mapOpt_wf (encodeVal t) xs cs (fun x _ hx c hc => enc_wf t x c hok hx hc) hf.2 h1
+      simp [Cbor.wf, this.1, this.2, hf.1]
+  | .map k v, x, c, hok, hf, h => by
+    simp only [okType, Bool.and_eq_true] at hok
+    cases x <;> simp [encodeVal] at h
+    · subst h; simp [Cbor.null, Cbor.wf]
+    · rename_i kvs
+      obtain ⟨es, h1, rfl⟩ := h
+      simp only [fitsVal, Bool.and_eq_true, decide_eq_true_eq] at hf
+      have := mapOpt2_wf (encodeVal k) (encodeVal v) kvs es
+        (fun e _ => ⟨fun hx c hc => enc_wf k e.1 c hok.1 hx hc, fun hx c hc => enc_wf v e.2 c hok.2 hx hc⟩) hf.2 h1
+      have hs := wfPairs_sortEntries es this.1
+      simp [Cbor.wf, hs.1, hs.2, this.2, hf.1]
+  | .struct fs, v, c, hok, hf, h => by
+    simp only [okType, Bool.and_eq_true] at hok
+    cases v <;> simp [encodeVal] at h
+    rename_i vs
+    obtain ⟨es, h1, rfl⟩ := h
+    simp only [fitsVal, Bool.and_eq_true, decide_eq_true_eq] at hf
+    have := encFields_wf fs vs es hok.2 hf.2 h1
+    simp [Cbor.wf, this.1]
+    omega
+  | .iface alts, v, c, hok, hf, h => by
+    simp only [okType, Bool.and_eq_true] at hok
+    cases v <;> simp [encodeVal] at h
+    · subst h; simp [Cbor.null, Cbor.wf]
+    · rename_i i x
+      simp only [fitsVal] at hf
+      exact encAlt_wf alts i x c hok.2 hf h
+theorem encFields_wf : ∀ (fs : Fields) (vs : List GoVal) (es : List (Cbor × Cbor)), okFields fs = true →
+    fitsVals vs = true → encodeFields fs vs = some es → wfPairs es = true ∧ es.length ≤ vs.length
+  | [], vs, es, _, _, h => by
+    cases vs <;> simp [encodeFields] at h
+    subst h; simp [wfPairs]
+  | (key, om, t) :: fs, vs, es, hok, hf, h => by
+    cases vs with
+    | nil => simp [encodeFields] at h
+    | cons v vs =>
+      simp only [okFields, Bool.and_eq_true, decide_eq_true_eq] at hok
+      simp only [fitsVals, Bool.and_eq_true] at hf
+      simp only [encodeFields] at h
+      cases h1 : encodeVal t v with
+      | none => simp [h1] at h
+      | some c =>
+        cases h2 : encodeFields fs vs with
+        | none => simp [h1, h2] at h
+        | some es' =>
+          simp only [h1, h2] at h
+          have ih := encFields_wf fs vs es' hok.2 hf.2 h2
+          have hc := enc_wf t v c hok.1.2 hf.1 h1
+          split at h
+          · simp at h; subst h; exact ⟨ih.1, by simp; omega⟩
+          · simp at h; subst h
+            simp [wfPairs, Cbor.wf, hok.1.1.2, hc, ih.1]
+            omega
+theorem encAlt_wf : ∀ (alts : List (Nat × GoType)) (i : Nat) (v : GoVal) (c : Cbor), okAlts alts = true →
+    fitsVal v = true → encodeAlt alts i v = some c → c.wf = true
+  | [], _, _, _, _, _, h => by simp [encodeAlt] at h
+  | (tag, t) :: alts, 0, v, c, hok, hf, h => by
+    simp only [okAlts, Bool.and_eq_true, decide_eq_true_eq] at hok
+    simp [encodeAlt] at h
+    obtain ⟨inner, h1, rfl⟩ := h
+    simp [Cbor.wf, hok.1.1, enc_wf t v inner hok.1.2 hf h1]
+  | (tag, t) :: alts, i + 1, v, c, hok, hf, h => by
+    simp only [okAlts, Bool.and_eq_true] at hok
+    simp only [encodeAlt] at h
+    exact encAlt_wf alts i v c hok.2 hf h
+end
+
+
+/-- `Unmarshal (Marshal v) = v`, hypotheses on the value only. -/
+theorem rt_bytes_fits (cfg : DecCfg) (t : GoType) (v : GoVal) (hok : okType t = true) (hw : wt cfg t v = true)
+    (hf : fitsVal v = true) : ∃ bs, marshalVal t v = some bs ∧ unmarshalVal cfg t bs = some v := by
+  obtain ⟨c, e1, e2, e3⟩ := rt_bytes cfg t v hok hw
+  exact ⟨c.encode, e2, e3 (enc_wf t v c hok hf e1)⟩
+
+
+
+/-- Is the first field named `key` declared `omitempty`? -/
+def fieldOm (key : Bytes) : Fields → Bool
+  | [] => false
+  | (k, om, _) :: fs => if k == key then om else fieldOm key fs
+
+/-- The encoding of a struct holds, under every non-`omitempty` key, the encoding of that field. -/
+theorem encodeFields_lookup (key : Bytes) (t : GoType) : ∀ (fs : Fields) (vs : List GoVal) (es : List (Cbor × Cbor)),
+    encodeFields fs vs = some es → keysDistinct fs = true → fieldType key fs = some t → fieldOm key fs = false →
+    ∃ v c, getField (.struct fs) key (.struct vs) = some v ∧ encodeVal t v = some c ∧
+      mapLookup (.text key) es = some c
+  | [], _, _, _, _, hf, _ => by simp [fieldType] at hf
+  | (k, om, t') :: fs, vs, es, h, hd, hf, ho => by
+    cases vs with
+    | nil => simp [encodeFields] at h
+    | cons v vs =>
+      simp only [keysDistinct, Bool.and_eq_true] at hd
+      simp only [encodeFields] at h
+      cases h1 : encodeVal t' v with
+      | none => simp [h1] at h
+      | some c =>
+        cases h2 : encodeFields fs vs with
+        | none => simp [h1, h2] at h
+        | some es' =>
+          simp only [h1, h2] at h
+          by_cases hk : k = key
+          · subst hk
+            simp [fieldType] at hf
+            subst hf
+            simp [fieldOm] at ho
+            subst ho
+            simp at h
+            subst h
+            exact ⟨v, c, by simp [getField, fieldIndex], h1, by simp [mapLookup_cons_text]⟩
+          · have hk' : (k == key) = false := by simpa using hk
+            simp only [fieldType, hk'] at hf
+            simp only [fieldOm, hk'] at ho
+            obtain ⟨v', c', g1, g2, g3⟩ := encodeFields_lookup key t fs vs es' h2 hd.2 hf ho
+            refine ⟨v', c', ?_, g2, ?_⟩
+            · simp only [getField, fieldIndex, hk'] at g1 ⊢
+              cases hi : fieldIndex key fs with
+              | none => simp [hi] at g1
+              | some i => simp [hi] at g1 ⊢; exact g1
+            · split at h
+              · simp at h; subst h; exact g3
+              · simp at h; subst h
+                rw [mapLookup_cons_text, hk']
+                exact g3
+
+
+/-- A pointer-typed projection of a non-`omitempty`, non-nullable field, on a record the encoder
+wrote: it always finds the key and returns the stored field (never nil / "missing"). -/
+theorem ptr_projection_on_stored (cfg : DecCfg) (ts ps : Fields) (key : Bytes) (t : GoType)
+    (hok : okType (.struct ts) = true) (h1 : fieldType key ts = some t) (ho : fieldOm key ts = false)
+    (h2 : fieldType key ps = some (.ptr t)) (hnn : nonNull t = true) (hpc : projOKc ts ps = true)
+    (vs : List GoVal) (hw : wt cfg (.struct ts) (.struct vs) = true) :
+    ∃ es v, encodeVal (.struct ts) (.struct vs) = some (.map es) ∧
+      getField (.struct ts) key (.struct vs) = some v ∧ fieldOfItem cfg ps key (.map es) = some v ∧
+      (encodeVal t v).isSome = true := by
+  obtain ⟨c, e1, e2⟩ := rt_val cfg (.struct ts) (.struct vs) hok hw
+  simp only [encodeVal] at e1
+  cases hes : encodeFields ts vs with
+  | none => simp [hes] at e1
+  | some es =>
+    simp [hes] at e1
+    subst e1
+    have hd : keysDistinct ts = true := by
+      simp only [okType, Bool.and_eq_true] at hok; exact hok.1
+    obtain ⟨v, cf, g1, g2, g3⟩ := encodeFields_lookup key t ts vs es hes hd h1 ho
+    have hT : decodeFields cfg ts es = some vs := by
+      simp only [decodeVal] at e2
+      cases hdd : decodeFields cfg ts es with
+      | none => simp [hdd] at e2
+      | some vs' => simp [hdd] at e2; subst e2; rfl
+    obtain ⟨v0, a1, a2⟩ := getField_decodeFields cfg es key t ts vs hT h1
+    rw [g1] at a2
+    cases a2
+    -- the stored item under the key is not null, so pointer-ness makes no difference
+    have hnn' := encodeVal_nonNull t v cf hnn g2
+    have hk : decodeKT cfg es key (.ptr t) = some v := by
+      unfold decodeKT at a1 ⊢
+      rw [g3] at a1 ⊢
+      simp only at a1 ⊢
+      rw [decodeVal_ptr_nonNull cfg t cf hnn'.1 hnn'.2]
+      exact a1
+    obtain ⟨ws, hP⟩ := decodeFields_projc_succeeds cfg es ts vs hT ps hpc
+    obtain ⟨v', b1, b2⟩ := getField_decodeFields cfg es key (.ptr t) ps ws hP h2
+    rw [hk] at b1
+    cases b1
+    refine ⟨es, v, by simp [encodeVal, hes], g1, ?_, by simp [g2]⟩
+    unfold fieldOfItem
+    simp only [decodeVal, hP, Option.map_some]
+    exact b2
+
+/-- On a header the node wrote, `GetBlockHeaderTimestampByNumber` returns the stored timestamp
+(never the "missing Timestamp" error). -/
+theorem timestamp_on_stored (cfg : DecCfg) (vs : List GoVal) (hw : wt cfg tHeader (.struct vs) = true)
+    (hf : fitsVal (.struct vs) = true) :
+    ∃ bs v, marshalVal tHeader (.struct vs) = some bs ∧ getField tHeader kTimestamp (.struct vs) = some v ∧
+      v ≠ .nil ∧ getBlockHeaderTimestamp cfg bs = some v := by
+  have hok : okType tHeader = true := by decide
+  have hT : tHeader = .struct (fieldsOf tHeader) := rfl
+  obtain ⟨es, v, e1, g1, g2, g3⟩ := ptr_projection_on_stored cfg (fieldsOf tHeader) (fieldsOf pHeaderTimestamp) kTimestamp
+    (.uint 64) (hT ▸ hok) rfl rfl rfl rfl (by decide) vs (hT ▸ hw)
+  have e1h : encodeVal tHeader (.struct vs) = some (.map es) := e1
+  have hwf := enc_wf tHeader (.struct vs) (.map es) hok hf e1h
+  have hdec : decodeAll (Cbor.map es).encode = some (.map es) := decodeAll_encode _ hwf
+  have e2 : decodeVal cfg (.struct (fieldsOf tHeader)) (.map es) = some (.struct vs) := by
+    obtain ⟨c2, x1, x2⟩ := rt_val cfg (.struct (fieldsOf tHeader)) (.struct vs) (hT ▸ hok) (hT ▸ hw)
+    rw [e1] at x1; cases x1; exact x2
+  have hproj : projField cfg pHeaderTimestamp kTimestamp (Cbor.map es).encode =
+      fieldOfItem cfg (fieldsOf pHeaderTimestamp) kTimestamp (.map es) :=
+    projField_eq_fieldOfItem cfg (fieldsOf tHeader) (fieldsOf pHeaderTimestamp) kTimestamp _ (.map es) (.struct vs) hdec e2
+  clear hT hw hok e2 hdec hwf
+  -- the field is an unsigned integer, hence not nil
+  cases v with
+  | uint n =>
+    refine ⟨(Cbor.map es).encode, .uint n, by simp only [marshalVal, e1h, Option.map_some], g1, by simp, ?_⟩
+    unfold getBlockHeaderTimestamp
+    rw [hproj, g2]
+    rfl
+  | _ => simp [encodeVal] at g3
 
 
 end Juno.C07
